@@ -48,6 +48,8 @@ Definition kind_of_code (n : nat) : kind :=
   | 7 => KWhenQueueEnds
   | 8 => KStateCtx
   | 9 => KAdd
+  | 32 => KAddP
+  | 33 => KEvalP
   | 10 | 11 | 12 | 13 => KFlag
   | 14 => KFalse
   | 15 | 17 | 18 | 30 => KNum
